@@ -50,6 +50,11 @@ struct RoomS {
     id: String,
     group: String,
     rows: Vec<Uid>,
+    /// the history of M in this room as scripted (the oracle does not ask the code under test what a member is):
+    /// last entry of M as a user, as an admin, as a user admin
+    user_on: Option<bool>,
+    admin_on: Option<bool>,
+    uadmin_on: Option<bool>,
 }
 
 struct Ctx {
@@ -212,12 +217,22 @@ fn setup(c: &mut Ctx) -> Result<(), String> {
             rows.push(u);
         }
         let _ = c.w.nodes[0].drain_events();
-        c.rooms.push(RoomS { uid, id: id.clone(), group: group.clone(), rows });
-        if CLASSES[*class % CLASSES.len()] == "former-member" {
+        let cl = CLASSES[*class % CLASSES.len()];
+        c.rooms.push(RoomS {
+            uid,
+            id: id.clone(),
+            group: group.clone(),
+            rows,
+            user_on: if cl == "member" || cl == "former-member" { Some(true) } else { None },
+            admin_on: if cl == "admin-only" { Some(true) } else { None },
+            uadmin_on: if cl == "user-admin-only" { Some(true) } else { None },
+        });
+        if cl == "former-member" {
             c.now += 1000;
             clocks(c);
             let q = format!(r#"mutate {{ sys.Room{{ id:"{id}" authorisations:[{{ id:"{group}" users:[{{verif_key:"{km}" enabled:false}}] }}] }} }}"#);
             c.w.nodes[0].mutate(&q, None)?;
+            c.rooms[r].user_on = Some(false);
         }
     }
     c.now += DAY_MS;
@@ -245,9 +260,25 @@ fn member_now(c: &mut Ctx, room: usize) -> Result<bool, String> {
         .map_err(|e| format!("{e:?}"))
 }
 
+/// membership by the scripted history: M is a member while its last entry as user, admin or user admin is enabled
+fn member_by_history(c: &Ctx, room: usize) -> bool {
+    let r = &c.rooms[room];
+    r.user_on == Some(true) || r.admin_on == Some(true) || r.uadmin_on == Some(true)
+}
+
 fn class_now(c: &mut Ctx, room: usize) -> Result<String, String> {
-    if member_now(c, room)? {
+    let by_code = member_now(c, room)?;
+    let by_history = member_by_history(c, room);
+    if by_code != by_history {
+        // what a room means is C10's subject; here the history decides who may be served
+        c.w.probe("membership_by_code_differs_from_history");
+    }
+    if by_history {
         return Ok("member".into());
+    }
+    let r = &c.rooms[room];
+    if r.user_on.is_some() || r.admin_on.is_some() || r.uadmin_on.is_some() {
+        return Ok("former-member".into());
     }
     // was it ever a member?
     let auth = c.w.nodes[0].dbh().auth.clone();
@@ -374,7 +405,7 @@ fn exec_step(c: &mut Ctx, st: &Step) -> Result<(), String> {
                 "Edges" => SyncQuery::Edges(uid, ids.iter().map(|i| (*i, 0i64)).collect()),
                 _ => SyncQuery::PeersForRoom(uid),
             };
-            let member = member_now(c, room)?;
+            let member = member_by_history(c, room);
             let class = class_now(c, room)?;
             let conn = c.conn.as_mut().unwrap();
             let answers = conn.ask(&mut c.w.nodes[0], q).map_err(|e| format!("{e:?}"))?;
@@ -395,6 +426,13 @@ fn exec_step(c: &mut Ctx, st: &Step) -> Result<(), String> {
                 _ => format!(r#"mutate {{ sys.Room{{ id:"{id}" admin:[{{verif_key:"{km}" enabled:false}}] }} }}"#),
             };
             let r = c.w.nodes[0].mutate(&q, None);
+            if r.is_ok() {
+                match what % 4 {
+                    0 => c.rooms[room].user_on = Some(false),
+                    1 | 3 => c.rooms[room].user_on = Some(true),
+                    _ => c.rooms[room].admin_on = Some(false),
+                }
+            }
             c.w.log.sched(format!("room-change {} ok={}", what % 4, r.is_ok()));
             c.w.fault("membership_change_while_connected");
             pump(c)?;
@@ -438,7 +476,7 @@ fn judge(c: &mut Ctx, kind: &str, room: usize, ids_from: usize, member: bool, cl
             if let Ok(list) = bincode::deserialize::<VecDeque<Uid>>(&a.serialized) {
                 for uid in list {
                     if let Some(r) = c.rooms.iter().position(|x| x.uid == uid) {
-                        if !member_now(c, r)? {
+                        if !member_by_history(c, r) {
                             let cl = class_now(c, r)?;
                             c.w.violation("C08", &format!("served-non-member/RoomList:{cl}"), format!("the room list given to M names room{r} of which M is not a member ({cl})"));
                         }
